@@ -64,7 +64,7 @@ ENGINE_FLAGS = ["--no-default-features"]
 PROPS["C12"] = {
     "level": "model_checking",
     "kani": [
-        {"package": "boa_engine", "flags": ENGINE_FLAGS, "tags": ["model", "c12a", "c12b"]},
+        {"package": "boa_engine", "flags": ENGINE_FLAGS, "tags": ["model", "c12a", "c12b", "c12c", "pubhelp"]},
         {"package": "boa_engine", "flags": ENGINE_FLAGS + ["--features", "jsvalue-enum"], "tags": ["model", "c12a"]},
     ],
     "assumptions": COMMON_ASSUME + [
